@@ -56,6 +56,10 @@ var reviewedDropped = map[string]string{
 }
 
 func runC08(p *Prog, r *Report) {
+	if want("C08.19") {
+		// a damaged compaction input stops the compaction
+		ruleCompactionInputsStrict(p, r, "C08.19")
+	}
 	if want("C08.18") {
 		// journal damage is never stepped over silently (shared with C12)
 		ruleDamageReported(p, r, "C08.18")
